@@ -185,6 +185,18 @@ def merge_hashes(files):
     return int(p.stdout.strip() or 0)
 
 
+def crash_digest(log):
+    """the lines of a sanitizer report that say what happened and where in libeav"""
+    keep = []
+    for l in log.split("\n"):
+        t = l.strip()
+        if "ERROR: " in t or t.startswith("SUMMARY:") or "runtime error:" in t or "Assertion" in t or t.startswith("CYCLING-"):
+            keep.append(t[:300])
+        elif t.startswith("#") and ("/src/" in t or "/partial/" in t or "/bin/" in t or "/include/eav" in t) and len([k for k in keep if k.startswith("#")]) < 4:
+            keep.append(t[:200])
+    return " | ".join(keep[:8]) if keep else log[-700:]
+
+
 def rerun_worker(pid, exe, st, tier, seed, outdir, datadir, known, extra, worker):
     """Re-execute one worker of a (deterministic) stage exactly as the stage ran it.  Used when a failure does not
     reproduce from its case alone: the code under test may keep state between validations, and then the reproducible
@@ -372,7 +384,7 @@ def main():
                     dump = os.path.join(outdir, "%s-%d.inflight" % (st["name"], r["worker"]))
                     case = open(dump).read().strip() if os.path.exists(dump) else ""
                     if r["rc"] in (77, -6, -11, -4, -7, -8, -5, 134, 139) and case:
-                        violations.append(dict(cls="crash", case=case, explain="harness process died (exit %d): %s" % (r["rc"], tail[-700:]),
+                        violations.append(dict(cls="crash", case=case, explain="harness process died (exit %d): %s" % (r["rc"], crash_digest(r["log"])),
                                                binary=st.get("binary"), stage=st["name"]))
                     else:
                         infra.append("stage %s worker %d exit %d without report: %s" % (st["name"], r["worker"], r["rc"], tail[-600:]))
